@@ -1008,8 +1008,14 @@ def rule_operator_semantics(ctx, ix):
                         problems.append(f"target of `{text}` does not have {n} distinct indexes")
                     if li != oi or ri != oi:
                         problems.append(f"`{text}`: dimension d of an operand is not indexed like dimension d of the result (not element-wise)")
-                    if val.kwargs.get("left") is not left or val.kwargs.get("right") is not right:
-                        problems.append("operands are not passed as left=left, right=right")
+                    bl, br = val.kwargs.get("left"), val.kwargs.get("right")
+                    straight = bl is left and br is right
+                    swapped = bl is right and br is left
+                    if not (straight or (swapped and op in ("+", "*"))):
+                        # element-wise + and * commute, so either binding computes the same tensor; - does not
+                        problems.append(
+                            "operands are bound the other way round: the kernel computes right - left" if swapped else "operands are not passed as left=left, right=right"
+                        )
                     fmt = val.args[1] if len(val.args) > 1 else val.kwargs.get("output_format")
                     pf = _fmt_modes(fmt, n) if isinstance(fmt, str) else None
                     if pf is None or len(pf[0]) != n:
